@@ -176,7 +176,7 @@ func c02(c *Ctx) {
 			test := pb.Preds[0]
 			for _, su := range test.Succs {
 				if su != pb {
-					c.EnteredOnlyWhenExcept(su, "data-piece-skipped-only-when-empty", func(p *ssa.BasicBlock) bool { return p != test }, CmpInt(func(v ssa.Value) bool { return v == ds }, token.LEQ, 0))
+					c.EnteredOnlyWhenFrom(su, "data-piece-skipped-only-when-empty", test, CmpInt(func(v ssa.Value) bool { return v == ds }, token.LEQ, 0))
 				}
 			}
 		}
@@ -347,7 +347,7 @@ func c02(c *Ctx) {
 		c.MustFact(rs, "loaded-only-the-first-time", Truth(FieldLoad(fProc), false))
 		okFlag := false
 		for _, st := range storesToField(pd, fProc) {
-			if ConstBool(true)(st.Val) && st.Block() == rs.Block() {
+			if ConstBool(true)(st.Val) && together(st, rs) {
 				okFlag = true
 			}
 		}
@@ -361,7 +361,7 @@ func c02(c *Ctx) {
 			}}, nil)
 		fr := callsIn(pd, Callee("mem", "BufferSlice.Free"))
 		if c.Expect(len(fr) == 1, nil, pd, "item-data-released-once", "expected one release of the item's data in the data step") {
-			c.Expect(fr[0].Block() == rs.Block() && instrDominates(rs, fr[0]), fr[0], pd, "released-after-loading", "the item's data is released before / apart from being loaded into the reader")
+			c.Expect(thenAlways(rs, fr[0]), fr[0], pd, "released-after-loading", "the item's data is released before / apart from being loaded into the reader")
 		}
 		pk := one(c, "reader.Peek", callsIn(pd, Callee("mem", "Reader.Peek")))
 		dc := one(c, "reader.Discard", callsIn(pd, Callee("mem", "Reader.Discard")))
